@@ -121,6 +121,62 @@ theorem register_refused_inside (fs : List HookFn) (s : Machine) (hk : ∀ f ∈
   intro t ht
   simp [canRegister, running_true_inside fs _ hk rfl t ht]
 
+/-! ## registration -/
+
+/-- **A registration attempted while a hook executes is refused and leaves nothing behind** — no hook, no "already
+    registered" mark: the same call made later, outside any hook, is the call it would have been without the attempt. -/
+theorem refused_registration_leaves_nothing (t : HookTable) (reg ns : List Nat) (before : Bool) (mn : String) (f : HookFn) :
+    handleSyscalls true t reg ns = none ∧ registerHook true t before mn f = none := ⟨rfl, rfl⟩
+
+/-- **Whenever no hook is executing, registration succeeds**, and a not yet registered syscall number gets its
+    handlers and its mark -/
+theorem registration_outside (t : HookTable) (reg ns : List Nat) (before : Bool) (mn : String) (f : HookFn) :
+    (handleSyscalls false t reg ns).isSome ∧ (registerHook false t before mn f).isSome := ⟨rfl, rfl⟩
+
+theorem register_fresh_number (t : HookTable) (reg : List Nat) (n : Nat) (h : n ∉ reg) :
+    handleSyscalls false t reg [n] = some (builtinHooks t n, reg ++ [n]) := by
+  simp [handleSyscalls, registerOne, h]
+
+/-- an already registered number is skipped: no second copy of its handlers -/
+theorem register_known_number (t : HookTable) (reg : List Nat) (n : Nat) (h : n ∈ reg) :
+    handleSyscalls false t reg [n] = some (t, reg) := by
+  simp [handleSyscalls, registerOne, h]
+
+/-- replacing the entry of a present key: the lookup finds the replacement -/
+theorem get_map_replace (mn : String) (E : HookEntry) (t : HookTable) (h : (t.get mn).isSome) :
+    HookTable.get (t.map fun (k, v) => if k == mn then (k, E) else (k, v)) mn = some E := by
+  unfold HookTable.get at h ⊢
+  induction t with
+  | nil => simp at h
+  | cons p rest ih =>
+    obtain ⟨k, v⟩ := p
+    cases hk : (k == mn) with
+    | true =>
+      simp only [List.map_cons, hk, if_true, List.find?, Option.map_some]
+    | false =>
+      simp only [List.find?, hk] at h
+      simp only [List.map_cons, hk, Bool.false_eq_true, if_false, List.find?]
+      exact ih h
+
+/-- the registered hook is appended: it runs after every hook registered before it for that mnemonic -/
+theorem registered_hook_is_last (t : HookTable) (mn : String) (f : HookFn) (e : HookEntry) (h : t.get mn = some e) :
+    (t.addBefore mn f).get mn = some { e with before := e.before ++ [f] } := by
+  unfold HookTable.addBefore
+  simp only [h]
+  exact get_map_replace mn _ t (by simp [h])
+
+/-- … and the first hook for a mnemonic makes the entry -/
+theorem registered_hook_first (t : HookTable) (mn : String) (f : HookFn) (h : t.get mn = none) :
+    (t.addBefore mn f).get mn = some { before := [f] } := by
+  unfold HookTable.addBefore
+  simp only [h]
+  unfold HookTable.get at h ⊢
+  have : t.find? (fun x => x.1 == mn) = none := by
+    cases hf : t.find? (fun x => x.1 == mn) with
+    | none => rfl
+    | some x => simp [hf] at h
+  simp [List.find?_append, this]
+
 /-! ## One step -/
 
 theorem runEntry_running (entry : Option HookEntry) (before : Bool) (s : Machine) (hs : s.hooksRunning = false) :
